@@ -359,6 +359,14 @@ func (vc *VC) isNil(v Val) string {
 	return eq(v.T, vc.zero(v.Sort))
 }
 
+func opaqueFieldName(t types.Type, field string) string {
+	name := "fld_" + sanitize(typeKey(t)) + "__" + sanitize(field)
+	if len(name) > 120 {
+		name = name[:120]
+	}
+	return name
+}
+
 // field selection on a struct value
 func (vc *VC) selField(v Val, name string) (Val, bool) {
 	inf := vc.info(v.Sort)
@@ -377,6 +385,29 @@ func (vc *VC) selField(v Val, name string) (Val, bool) {
 func (vc *VC) updField(v Val, name string, nv string) string {
 	inf := vc.info(v.Sort)
 	if inf == nil || inf.Kind != kStruct {
+		// opaque (library) struct: a fresh struct value whose uninterpreted field functions agree with the
+		// old value everywhere except the written field
+		if gt, ok := v.GoT.(types.Type); ok && gt != nil {
+			if stt, ok := gt.Underlying().(*types.Struct); ok {
+				nc := vc.fresh("opq", v.Sort)
+				found := false
+				for i := 0; i < stt.NumFields(); i++ {
+					f := stt.Field(i)
+					fn := opaqueFieldName(gt, f.Name())
+					fs := vc.sortOf(f.Type())
+					vc.declFun(fn, []string{v.Sort}, fs)
+					if f.Name() == name {
+						found = true
+						vc.termFact(eq(fmt.Sprintf("(%s %s)", fn, nc), nv))
+					} else {
+						vc.termFact(eq(fmt.Sprintf("(%s %s)", fn, nc), fmt.Sprintf("(%s %s)", fn, v.T)))
+					}
+				}
+				if found {
+					return nc
+				}
+			}
+		}
 		panic(unsupported("write to field " + name + " of an opaque (library) struct"))
 	}
 	var parts []string
